@@ -35,6 +35,10 @@ type StallConn struct {
 	// configuration: set before the connection is handed to the code under test
 	StallAt      int  // 1-based index of the step that never completes (0: none)
 	StallPartial bool // the stalled step transfers half of its bytes first
+	// OnlyKind ("read" | "write" | ""): when set, only operations of this kind are steps
+	// (counted, hooked, stallable); the other direction passes straight through. Used when a
+	// second operation runs on the other direction of the stream at the same time (duplex).
+	OnlyKind string
 	// BeforeOp is called when step idx starts (before any byte moves).
 	BeforeOp func(idx int, kind string)
 	// AfterOp is called when the I/O of a non-stalled step has completed, before
@@ -91,6 +95,9 @@ func (c *StallConn) stall(idx int, kind string) error {
 }
 
 func (c *StallConn) Read(p []byte) (int, error) {
+	if c.OnlyKind == "write" {
+		return io.ReadFull(c.inner, p)
+	}
 	idx := c.begin("read", len(p))
 	if idx == c.StallAt {
 		n := 0
@@ -105,6 +112,9 @@ func (c *StallConn) Read(p []byte) (int, error) {
 }
 
 func (c *StallConn) Write(p []byte) (int, error) {
+	if c.OnlyKind == "read" {
+		return c.inner.Write(p)
+	}
 	idx := c.begin("write", len(p))
 	if idx == c.StallAt {
 		n := 0
@@ -167,6 +177,13 @@ func (c *StallConn) WaitClosed(d time.Duration) bool {
 	case <-t.C:
 		return c.Closed()
 	}
+}
+
+// ResetSteps forgets the steps seen so far (a warm-up exchange before the call under test).
+func (c *StallConn) ResetSteps() {
+	c.mu.Lock()
+	c.steps, c.started, c.done = nil, 0, 0
+	c.mu.Unlock()
 }
 
 // Steps returns the steps started so far, in order.
